@@ -61,6 +61,16 @@ CHECKS['C06'] = dict(text="Theorems over the history model (effects read off the
   "by exception, timeout, SIGKILLed worker, nested-map misuse or are closed early, followed by calls whose results, ordering "
   "mode and fresh workers are checked. SIGINT as a failure cause is exercised under C17.", ref="5/C06",
   technique="Coq proof (bisimulation with a fresh pool over all histories, effects generated from source) + failure-history oracle")
+CHECKS['C03'] = dict(text="Theorems (Core, every configuration: n_jobs>=1, non-empty chunks, any max_tasks_active incl. below the chunk "
+  "size, lifespan>=1, order_tasks, init/exit): (1) deadlock-freedom -- every reachable state of every schedule is finished or "
+  "has an enabled actor; (2) no livelock -- every enabled step strictly decreases a natural-number measure, so no schedule "
+  "performs more than M(init) steps; (3) a fair round-robin schedule finishes the call within M(init)+1 rounds. Rests on a "
+  "protocol invariant (hand-shake counters, joinable-queue counters, pill placement, tokens in flight) proved for every step. "
+  "Tie: all guards regenerated from the source (dispatch waits, loop guard, restart condition, results hand-shake and its reset, "
+  "iterator exhaustion), instance logs replayed through Core.step, watchdogged runs over stress configurations (hang = watchdog "
+  "expires twice, with all thread stacks in the replay). Partial: failure paths, apply, progress-bar hand-shake, pipe capacity "
+  "and fork are outside Core; they are exercised by the runs only.", ref="5/C03",
+  technique="Coq proof (protocol invariant + progress + strictly decreasing measure, all schedules) + trace conformance + watchdog")
 PENDING = {}
 props = [json.loads(l) for l in open(os.path.join(V, 'properties.jsonl'))]
 m = dict(version=1,
